@@ -51,7 +51,7 @@ class StlHorizon(LtlHorizon, StlAstVisitor):
         if self.ast is None:
             return 1
         period = self.ast.sampling_period * self.ast.U[self.ast.sampling_period_unit]
-        return Fraction(period, self.ast.U[self.ast.unit])
+        return Fraction(period) / self.ast.U[self.ast.unit]
 
     def visitNext(self, node, *args, **kwargs):
         op_horizon = self.visit(node.children[0], *args, **kwargs)
